@@ -104,6 +104,25 @@ def targeted(gates):
         yield prog(f, "(decl - int secret (lit 41)) (expr (call poke)) (print (e (var secret)))")
 
 
+def default_expr_cases():
+    """default values that are expressions over EARLIER parameters of the same call (and over globals): evaluated in the callee's
+    frame at every call; the values are computed here"""
+    cases = []
+
+    def c(cid, pre, body, out):
+        cases.append({"id": cid, "program": pre + "int main() {\n" + body + "    println(\"END\");\n    return 0;\n}\n", "expect_class": "ok", "expect_stdout": out + "END\n"})
+    SC = "int scale(int a, int b = a * 2) {\n    return a * 100 + b;\n}\n"
+    c("earlier-param", SC, "    println(scale(1), scale(3), scale(1, 5));\n", "102 306 105\n")
+    c("earlier-param-caller-local-same-name", SC, "    int a = 7;\n    int b = 9;\n    println(scale(1), scale(2));\n    println(a, b);\n", "102 204\n7 9\n")
+    c("earlier-param-from-function", SC + "int twice(int a) {\n    int b = 50;\n    return scale(a) + scale(a + 1);\n}\n", "    println(twice(1), twice(4));\n", "306 918\n")
+    c("recursion", "int rec(int n, int acc = n * n) {\n    if (n <= 1) {\n        return acc;\n    }\n    return acc + rec(n - 1);\n}\n", "    println(rec(3), rec(1), rec(4, 100));\n", "14 1 114\n")
+    c("global-same-name", "int width = 80;\nint pad(int width, int total = width + 2) {\n    return width * 1000 + total;\n}\n", "    println(pad(5), pad(6, 1), width);\n", "5007 6001 80\n")
+    c("global-in-default-changes", "int g = 1;\nint addg(int x, int y = g * 10) {\n    return x + y;\n}\n", "    println(addg(1));\n    g = 5;\n    println(addg(1), addg(1, 2));\n", "11\n51 3\n")
+    c("two-defaults-chain", "int chain(int a, int b = a + 1, int c = b * a) {\n    return a * 10000 + b * 100 + c;\n}\n", "    println(chain(2), chain(2, 5), chain(2, 5, 7));\n", "20306 20510 20507\n")
+    c("default-calls-function", "int sq(int v) {\n    return v * v;\n}\nint area(int w, int h = sq(w)) {\n    return w * 1000 + h;\n}\n", "    int w = 9;\n    println(area(3), area(3, 4));\n", "3009 3004\n")
+    return cases
+
+
 def main(a):
     c = RefCheck(PID, a, ["CbProofs", "CbProps.C08"], THEOREMS)
     if not c.build():
@@ -113,6 +132,7 @@ def main(a):
     c.witnesses()
     quick = a.tier == "quick"
     c.suite("targeted", targeted(c.gates), nontrivial=lambda r: hash(r.sexp))
+    c.raw_suite("default-expressions", default_expr_cases(), max_report=4)
     n = 400 if quick else 30000
     rnd = [gen_core.gen_program(a.seed, 81, k, c.gates, size=20, features={"reuse_names": True, "calls": True})[0]
            for k in range(n)]
